@@ -4,7 +4,7 @@ import ast
 from .. import ctx as ctxmod
 from ..src import own_nodes, norm
 from ..cfg import cfg_of
-from . import forwarding, levels
+from . import forwarding, levels, codelemmas
 
 CONTEXT = ('version', 'validation_level', 'encoding_chars')
 
@@ -103,3 +103,6 @@ def run(chk):
         else:
             chk.ok('C17-R', construct, '', where, key='C17-R|%s|%s' % (fn.qualname, ctxt))
     chk.assume('call resolution by class-hierarchy analysis (unresolved: user-supplied MLLP handler classes only)')
+    chk.rule('C17-H', 'explicit delimiters of a message reach lazily created descendants: the ancestor look-up follows '
+                      'traversal_parent before falling back to the process-wide defaults')
+    codelemmas.ancestor_lookup(chk, c, 'C17-H')
